@@ -182,7 +182,7 @@ async fn run_history(line: usize, hist: &Value, dir: &str) -> Value {
         Ok(a) => a,
         Err(e) => {
             return json!({"line": line, "steps": [], "offered": [], "held": [], "converged_ms": [], "converged": [], "panic": PANICKED.get(),
-                          "stuck": format!("adapter construction failed: {e}"), "ns": nsname, "reqs": mock.requests()});
+                          "stuck": format!("adapter construction failed: {e}"), "gaveUp": false, "ns": nsname, "reqs": mock.requests()});
         }
     };
     for (i, st) in steps.iter().enumerate() {
@@ -199,7 +199,7 @@ async fn run_history(line: usize, hist: &Value, dir: &str) -> Value {
         if let Err(why) = mock.apply(&step, STEP_WAIT).await {
             stuck = format!("step {}: {}", i + 1, why);
         }
-        let need_sync = !matches!(step, Step::Drop(_));
+        let need_sync = !matches!(step, Step::Drop(_) | Step::ListFail);
         let mut synced_at: Option<Instant> = None;
         let mut got;
         let mut ok;
@@ -240,8 +240,10 @@ async fn run_history(line: usize, hist: &Value, dir: &str) -> Value {
         }
     }
     drop(adapter);
+    // the client never asked for the LIST (again) although one was due: it has stopped following the API server
+    let gave_up = stuck.contains("waiting for a LIST request");
     json!({"line": line, "steps": out_steps, "offered": out_offered, "held": out_held, "converged_ms": out_ms, "converged": out_conv,
-           "panic": PANICKED.get(), "stuck": stuck, "ns": nsname, "reqs": mock.requests()})
+           "panic": PANICKED.get(), "stuck": stuck, "gaveUp": gave_up, "ns": nsname, "reqs": mock.requests()})
 }
 
 fn main() {
@@ -293,7 +295,7 @@ fn main() {
                 let v = match r {
                     Ok(v) => v,
                     Err(_) => json!({"line": line, "steps": [], "offered": [], "held": [], "converged_ms": [], "converged": [], "panic": true,
-                                     "stuck": "panic on the history thread", "ns": "", "reqs": []}),
+                                     "stuck": "panic on the history thread", "gaveUp": false, "ns": "", "reqs": []}),
                 };
                 results.lock().unwrap()[k] = Some(v);
             }
